@@ -167,9 +167,12 @@ fn err_name(e: &jsonb::Error) -> String {
 /// Result of one decode under the oracle. `Ok(outcome label)` or a violation.
 fn decode_once(decoder: &str, bytes: &[u8]) -> Result<(String, Option<MVal>), Viol> {
     alloc::reset();
-    let r = guard(|| match decoder {
-        "from_slice" => jsonb::from_slice(bytes).map(|v| mval::from_value(&v)),
-        _ => jsonb::parse_jsonb(bytes).map(|v| mval::from_value(&v)),
+    // the row is decoded where a column store would have it: unaligned, and with nothing readable behind it
+    let (r, _placed) = crate::placement::with_row(bytes, |bytes| {
+        guard(|| match decoder {
+            "from_slice" => jsonb::from_slice(bytes).map(|v| mval::from_value(&v)),
+            _ => jsonb::parse_jsonb(bytes).map(|v| mval::from_value(&v)),
+        })
     });
     let max_req = alloc::max_request();
     let limit = (256usize << 20).max(4096 * bytes.len());
@@ -912,12 +915,15 @@ impl Scenario for Corrupt {
             }
             Case::Prefix { doc, cut } => {
                 let mut out = vec![];
-                for d in shrink::shrink_tree(doc) {
+                // candidates are materialised: a document with a 2^24..2^27-byte payload gets a short list
+                let huge = doc.approx_bytes() > (8 << 20);
+                for d in shrink::shrink_tree(doc).into_iter().take(if huge { 5 } else { usize::MAX }) {
                     let n = mval::encode(&d).len();
                     if n == 0 {
                         continue;
                     }
-                    for c in [(*cut).min(n - 1), n - 1, n / 2, 4.min(n - 1), 8.min(n - 1)] {
+                    let cuts = [(*cut).min(n - 1), n - 1, n / 2, 4.min(n - 1), 8.min(n - 1)];
+                    for c in cuts.into_iter().take(if huge { 2 } else { 5 }) {
                         out.push(Case::Prefix { doc: d.clone(), cut: c });
                     }
                 }
